@@ -1006,7 +1006,7 @@ def check_reproducibility(case, ctx):
                 key = (gi, stp["tmpl"])
                 if key in last_on_gen:
                     shared_second_use += 1
-                    if _collision_bound(blocks) < 1e-12:
+                    if _collision_bound(blocks) < 1e-16:  # <= 1e4 such comparisons per run keep the run below 1e-12
                         ctx.label("shared:differ_checked")
                         ctx.check(not M.results_equal(res, last_on_gen[key]), f"shared_generator_successive_draws_differ:{e}",
                                   lambda: f"step {si}: identical to the previous draw from the same generator: {M.short(res)}")
